@@ -174,10 +174,10 @@ def catalogue(world) -> list[tuple[str, str, dict | None]]:
             except Exception:  # noqa: BLE001
                 continue
             for method in ("GET", "HEAD", "POST", "PUT", "DELETE"):
-                for body in (None, "json-empty", "json-junk", "form-junk", "json-list"):
+                for body in (None, "json-empty", "json-junk", "form-junk", "json-list", "form-plausible", "json-plausible"):
                     if method in ("GET", "HEAD", "DELETE") and body not in (None, "json-junk"):
                         continue
-                    items.append((method, path + ("?ajax=1" if body == "json-junk" and method != "GET" else ""),
+                    items.append((method, path + ("?ajax=1" if body in ("json-junk", "json-plausible") and method != "GET" else ""),
                                   {"kind": body} if body else None))
     # the same bodies carrying a CSRF token that is valid for the service of the route (authorised role only):
     # they reach the code behind the CSRF check.  Kept at the end of the catalogue because they may really
@@ -191,7 +191,8 @@ def catalogue(world) -> list[tuple[str, str, dict | None]]:
         except Exception:  # noqa: BLE001
             continue
         for method in sorted((rule.methods or set()) & {"POST", "PUT", "DELETE"}):
-            for body in ("json-empty-tok", "json-junk-tok", "form-junk-tok", "json-partial-tok"):
+            for body in ("json-empty-tok", "json-junk-tok", "form-junk-tok", "json-partial-tok", "form-plausible-tok",
+                         "json-plausible-tok"):
                 if method == "DELETE" and body != "json-empty-tok":
                     continue
                 items.append((method, path + ("?ajax=1" if body.startswith("json") else ""), {"kind": body}))
@@ -205,6 +206,14 @@ def catalogue(world) -> list[tuple[str, str, dict | None]]:
 JUNK = {"csrf_token": "junk", "title": 5, "directory": None, "name": ["x"], "periods": "notalist", "username": {},
         "password": 1, "email": None, "track_id": "x", "lang": 7, "kid": 1, "kids": 7, "type": None, "pk": "x",
         "timing_ref": 5, "marlin_la_url": 1, "playready_la_url": []}
+
+
+# well-typed, plausible field values: they pass the field validation and reach the code behind it (with a junk CSRF
+# token: the failure paths of the handlers; with a valid one: the handlers themselves)
+PLAUSIBLE = {"csrf_token": "junk", "title": "hostile title", "directory": "hdir", "name": "hname", "periods": [],
+             "username": "huser", "password": "pw123456", "confirmPassword": "pw123456", "email": "h@x.test",
+             "track_id": "1", "lang": "eng", "kid": "ab" * 16, "hkid": "ab" * 16, "hkey": "cd" * 16, "new_key": "1",
+             "timing_ref": "", "marlin_la_url": "", "playready_la_url": "", "kids": [], "type": "temporary", "pk": None}
 
 
 class Hostile(RoleClient):
@@ -234,11 +243,14 @@ class Hostile(RoleClient):
                                "upload" if path.startswith("/media") else "streams")
                     tok = await self.api.token(service, discover_ids(world).get("spk")) or "junk"
                     junk = {"json-empty-tok": {}, "json-junk-tok": dict(JUNK), "form-junk-tok": dict(JUNK),
+                            "form-plausible-tok": dict(PLAUSIBLE), "json-plausible-tok": dict(PLAUSIBLE),
                             "json-partial-tok": {"title": "t", "directory": 7, "name": "n", "kid": "zz", "track_id": "1",
                                                  "lang": ["en"], "periods": [{"pid": 1}], "username": "u"}}[body["kind"]]
                     junk["csrf_token"] = tok
                     if method == "DELETE":
                         target += ("&" if "?" in target else "?") + urllib.parse.urlencode({"csrf_token": tok})
+                    elif body["kind"] == "form-plausible-tok":
+                        data, headers["Content-Type"] = form({k: v for k, v in junk.items() if isinstance(v, str)})
                     elif body["kind"].startswith("form"):
                         data, headers["Content-Type"] = form({k: str(v) for k, v in junk.items()})
                     else:
@@ -255,6 +267,10 @@ class Hostile(RoleClient):
                         data, headers["Content-Type"] = b"[1, 2]", "application/json"
                     elif kind == "form-junk":
                         data, headers["Content-Type"] = form({k: str(v) for k, v in JUNK.items()})
+                    elif kind == "form-plausible":
+                        data, headers["Content-Type"] = form({k: v for k, v in PLAUSIBLE.items() if isinstance(v, str)})
+                    elif kind == "json-plausible":
+                        data, headers["Content-Type"] = json.dumps(PLAUSIBLE).encode(), "application/json"
                     elif kind == "json":
                         data, headers["Content-Type"] = json.dumps(body["value"]).encode(), "application/json"
                 try:
